@@ -1035,8 +1035,7 @@ func callBuiltin(caller *frame, fn *ssa.Builtin, args []value) value {
 		switch x := args[0].(type) {
 		case *smap:
 			if x != nil {
-				x.keys = nil
-				x.vals = nil
+				x.clear()
 			}
 		case []value:
 			if len(x) > 0 {
@@ -1216,7 +1215,7 @@ func (i *interpreter) rangeIter(x value) iter {
 	case *smap:
 		it := &smapIter{i: i, m: x}
 		if x != nil {
-			it.keys = append([]value(nil), x.keys...)
+			it.keys = x.liveKeys()
 		} else {
 			it.m = &smap{}
 		}
